@@ -23,7 +23,7 @@ PROPS = {
     "C11": {"level": "fault_enumeration", "stages": ["native"]},
     "C12": {"level": "exploration", "stages": ["native"]},
     "C13": {"level": "exploration", "stages": ["native"]},
-    "C14": {"level": "exploration", "stages": ["native"]},
+    "C14": {"level": "exploration", "stages": ["c14"]},
     "C15": {"level": "exploration", "stages": ["native"]},
     "C16": {"level": "exploration", "stages": ["native"]},
 }
@@ -114,6 +114,153 @@ class Run:
         if code != 0 or not os.path.exists(out):
             raise Inconclusive(f"native driver failed (exit {code}): " + text[-600:])
         return json.load(open(out))
+
+    # ------------------------------------------------------------------ C14: one build per configuration
+    C14_CONFIGS = [
+        # (name, levels, heights, winternitz, quick?)
+        ("L1", 1, "25", "1", True),
+        ("L2", 2, "25, 25", "1, 1", True),
+        ("L3", 3, "25, 25, 25", "1, 1, 1", False),
+        ("L4", 4, "25, 25, 25, 25", "1, 1, 1, 1", False),
+        ("L5", 5, "25, 25, 25, 25, 25", "1, 1, 1, 1, 1", True),
+        ("L6", 6, ", ".join(["25"] * 6), ", ".join(["1"] * 6), False),
+        ("L7", 7, ", ".join(["25"] * 7), ", ".join(["1"] * 7), True),
+        ("L1-h5", 1, "5", "1", True),
+        ("L1-h10", 1, "10", "1", False),
+        ("L2-h5-10", 2, "5, 10", "1, 1", True),
+        ("L2-h10-5", 2, "10, 5", "1, 1", True),
+        ("L3-h15-5-5", 3, "15, 5, 5", "1, 1, 1", False),
+        ("L8-h5", 8, ", ".join(["5"] * 8), ", ".join(["1"] * 8), True),
+        ("L1-w8", 1, "25", "8", True),
+        ("L1-w4", 1, "25", "4", False),
+        ("L2-w2-8", 2, "25, 25", "2, 8", True),
+        ("L2-w8-2", 2, "25, 25", "8, 2", False),
+        ("L3-w4-4-4", 3, "25, 25, 25", "4, 4, 4", True),
+        ("L2-h5-10-w4-2", 2, "5, 10", "4, 2", True),
+        ("L3-h10-5-5-w8-4-2", 3, "10, 5, 5", "8, 4, 2", False),
+        ("L2-h2-2-w8-8", 2, "2, 2", "8, 8", False),
+        ("L4-h5-5-2-2-w2-2-4-8", 4, "5, 5, 2, 2", "2, 2, 4, 8", False),
+    ]
+
+    def stage_c14(self):
+        from concurrent.futures import ThreadPoolExecutor
+        default = self.build_hbsmon()
+        self.calibrate(default)
+        configs = [c for c in self.C14_CONFIGS if c[4] or self.tier == "thorough"]
+        base = os.path.join(self.root, "target", "c14")
+        os.makedirs(base, exist_ok=True)
+        t0 = time.time()
+
+        def build(cfg):
+            name, lv, hs, ws, _ = cfg
+            tdir = os.path.join(base, name)
+            env = {"HBS_LMS_MAX_ALLOWED_HSS_LEVELS": str(lv), "HBS_LMS_TREE_HEIGHTS": hs, "HBS_LMS_WINTERNITZ_PARAMETERS": ws}
+            code, out = sh(["cargo", "build", "--release", "--offline", "-p", "hbsmon", "--target-dir", tdir], cwd=self.harness, env=env, timeout=1800)
+            return name, code, out, os.path.join(tdir, "release", "hbsmon")
+
+        with ThreadPoolExecutor(4) as ex:
+            built = list(ex.map(build, configs))
+        doc = {"evaluations": 0, "distinct_nontrivial": 0, "samples": [], "violations": [], "inconclusive": [], "counters": {}, "notes": [], "assumptions": [
+            "the default build of the same worker source is the oracle for parameter lists inside the limits; 'within limits' is read from the crate documentation: length <= levels, h_i <= HBS_LMS_TREE_HEIGHTS[i], w_i >= HBS_LMS_WINTERNITZ_PARAMETERS[i]",
+            "key files of out-of-limit lists are produced from the known blob format, as a default build would write them"],
+            "rule": "one build of the harness per HBS_LMS_* configuration (levels 1..8, per-level maximum heights, per-level minimum Winternitz parameters, combinations); a generator emits parameter lists inside (boundary + random) and just outside the limits (one level too many, the next larger height on one level, the next smaller W on one level) for all 6 hashes; the transcript (keygen, lifetime, sign, callback count, successor, verify, verify of another message, aux written and used, last-leaf signature and wiped successor) of every in-limit list must equal the default build's byte for byte, every out-of-limit list must be refused with Err by keygen, get_lifetime and sign without callback; distinct_nontrivial = distinct (configuration, case kind, hash, parameter list)"}
+        distinct = set()
+        vio = {}
+
+        def violation(key, what, replay):
+            if key in vio:
+                vio[key]["count"] += 1
+            else:
+                vio[key] = {"key": key, "what": what, "count": 1, "replay": replay}
+
+        import threading
+        lock = threading.Lock()
+
+        def per_config(item):
+            (name, code, out, binp), cfg = item
+            _, lv, hs, ws, _ = cfg
+            if code != 0:
+                # does the library itself build under this configuration?
+                violation(f"C14:{name}:does_not_build", f"the harness (and therefore the library) does not build with HBS_LMS_MAX_ALLOWED_HSS_LEVELS={lv} HBS_LMS_TREE_HEIGHTS='{hs}' HBS_LMS_WINTERNITZ_PARAMETERS='{ws}': " + out[-400:], {"config": name})
+                return
+            c1, cases = sh([default, "c14-cases", str(lv), hs.replace(" ", ""), ws.replace(" ", ""), "--seed", str(self.seed), "--tier", self.tier], cwd=self.root, env=self.env, timeout=600)
+            if c1 != 0 or not cases.strip():
+                raise Inconclusive("c14 case generator failed: " + cases[-300:])
+            casefile = os.path.join(self.results, f"c14-{name}.cases")
+            open(casefile, "w").write(cases)
+
+            # the default build is the oracle for the in-limit lists only (out-of-limit lists are
+            # legal there and may be arbitrarily expensive)
+            in_only = os.path.join(self.results, f"c14-{name}.in.cases")
+            open(in_only, "w").write("".join(l + "\n" for l in cases.strip().splitlines() if l.startswith("IN ")))
+
+            def run(binary, path):
+                with open(path) as f:
+                    e = dict(os.environ); e.update(self.env)
+                    try:
+                        p = subprocess.run([binary, "c14-worker"], stdin=f, stdout=subprocess.PIPE, stderr=subprocess.PIPE, env=e, cwd=self.root, timeout=1500)
+                    except subprocess.TimeoutExpired:
+                        return None, "", "timeout"
+                return p.returncode, p.stdout.decode("utf-8", "replace"), p.stderr.decode("utf-8", "replace")
+
+            with ThreadPoolExecutor(2) as ex:
+                fd = ex.submit(run, default, in_only)
+                fc = ex.submit(run, binp, casefile)
+                (cd, td, ed), (cc, tc, ec) = fd.result(), fc.result()
+            if cd != 0:
+                raise Inconclusive("default-build c14 worker failed: " + str(ed)[-300:])
+            if cc is None:
+                raise Inconclusive(f"watchdog: c14 worker of configuration {name} exceeded its budget")
+            by_case = {l.split(" | ")[0]: l for l in td.strip().splitlines()}
+            lines_c = tc.strip().splitlines()
+            lines_d = [by_case.get(l.split(" | ")[0], l.split(" | ")[0] + " | ") for l in lines_c]
+            ncases = len(cases.strip().splitlines())
+            if cc != 0 or len(lines_c) != ncases:
+                # the constrained worker died (abort / stack overflow / ...): name the case it died on
+                k = len(lines_c)
+                case = cases.strip().splitlines()[k] if k < ncases else "?"
+                violation(f"C14:{name}:worker_crashed", f"the worker built with configuration {name} terminated abnormally (exit {cc}) while executing case: {case}; stderr: {ec[-300:]}", {"config": name, "case": case})
+                lines_c = lines_c[:k]
+            lock.acquire()
+            for ld, lc in zip(lines_d, lines_c):
+                kind = ld.split()[0]
+                case = ld.split(" | ")[0]
+                toks_d = dict(t.split("=", 1) for t in ld.split(" | ")[1].split() if "=" in t)
+                toks_c = dict(t.split("=", 1) for t in lc.split(" | ")[1].split() if "=" in t)
+                doc["evaluations"] += 1
+                f = case.split()
+                distinct.add((name, kind, f[1], f[2]))
+                replay = {"config": {"name": name, "levels": lv, "heights": hs, "winternitz": ws}, "case": case, "default_build": ld.split(" | ")[1][:2000], "constrained_build": lc.split(" | ")[1][:2000]}
+                if kind == "IN":
+                    doc["counters"]["in_limit_cases"] = doc["counters"].get("in_limit_cases", 0) + 1
+                    if not toks_d.get("keygen", "").startswith("ok") or not toks_d.get("sign", "").startswith("ok"):
+                        doc["notes"].append(f"default build itself fails an in-limit case: {case}")
+                    for tok in toks_d:
+                        if toks_c.get(tok) != toks_d[tok]:
+                            violation(f"C14:{name}:in_limit:{tok}:{f[1]}", f"configuration {name}: {tok} of an in-limit parameter list ({f[2]}, {f[1]}) differs from the default build: {str(toks_c.get(tok))[:120]} vs {toks_d[tok][:120]}", replay)
+                            break
+                else:
+                    doc["counters"]["out_of_limit_cases"] = doc["counters"].get("out_of_limit_cases", 0) + 1
+                    for tok in ("keygen", "lifetime", "sign"):
+                        v = toks_c.get(tok, "")
+                        if v and not (v == "err" or v.startswith("skipped")):
+                            violation(f"C14:{name}:{kind}:{tok}:{v.split(':')[0]}", f"configuration {name}: {tok} of an out-of-limit parameter list ({f[2]}, {kind}) returned {v[:150]} instead of an error", replay)
+                    if toks_c.get("callbacks", "0") != "0":
+                        violation(f"C14:{name}:{kind}:callback", f"configuration {name}: update callback invoked for an out-of-limit key ({f[2]})", replay)
+                if len(doc["samples"]) < 6 and doc["evaluations"] % 97 == 1:
+                    doc["samples"].append({"config": name, "case": case, "constrained_build": lc.split(" | ")[1][:300]})
+            doc["counters"]["configurations"] = doc["counters"].get("configurations", 0) + 1
+            lock.release()
+        with ThreadPoolExecutor(3) as ex:
+            for fut in [ex.submit(per_config, it) for it in zip(built, configs)]:
+                fut.result()
+        doc["violations"] = list(vio.values())
+        doc["distinct_nontrivial"] = len(distinct)
+        doc["wall_s"] = time.time() - t0
+        if doc["counters"].get("out_of_limit_cases", 0) == 0 or doc["counters"].get("in_limit_cases", 0) == 0:
+            doc["inconclusive"].append("did not exercise both in-limit and out-of-limit lists")
+        doc["notes"] = doc["notes"][:10]
+        return doc
 
     # ------------------------------------------------------------------ verdict
     def known_findings(self):
